@@ -79,6 +79,12 @@ pub fn setup(prop: &str, tier: &str, variant: u64) -> Setup {
             p.w_probe = 6;
             p.w_gc = 2;
         }
+        "C11" => {
+            m.prop = "C11";
+            m.c11 = true;
+            p.w_gc = 2;
+            p.subdocs = false;
+        }
         "C13" => {
             m.prop = "C13";
             m.c13 = true;
@@ -113,6 +119,7 @@ pub fn setup(prop: &str, tier: &str, variant: u64) -> Setup {
 }
 
 pub struct RunResult {
+    pub soft: Vec<Violation>,
     pub violation: Option<Violation>,
     pub cnt: Counters,
     pub nontrivial: bool,
@@ -164,13 +171,14 @@ pub fn run_program(prog: &Program, mon: &MonSet) -> RunResult {
         hash: world.history_hash(),
         cnt: world.cnt.clone(),
         log: world.log.clone(),
+        soft: world.soft.clone(),
         violation,
         harness_error,
     }
 }
 
-fn same(v: &Option<Violation>, prop: &str, kind: &str) -> bool {
-    matches!(v, Some(x) if x.prop == prop && x.kind == kind)
+fn same(res: &RunResult, prop: &str, kind: &str) -> bool {
+    matches!(&res.violation, Some(x) if x.prop == prop && x.kind == kind) || res.soft.iter().any(|x| x.prop == prop && x.kind == kind)
 }
 
 /// Delta debugging over the step list (then over calls inside transactions): keeps a reduction
@@ -189,7 +197,7 @@ pub fn minimise(prog: &Program, mon: &MonSet, v: &Violation, budget: usize) -> (
             let end = (i + chunk).min(len);
             cand.steps.drain(i..end);
             runs += 1;
-            if same(&run_program(&cand, mon).violation, v.prop, &v.kind) {
+            if same(&run_program(&cand, mon), v.prop, &v.kind) {
                 best = cand;
                 n = (n - 1).max(2);
                 reduced = true;
@@ -216,7 +224,7 @@ pub fn minimise(prog: &Program, mon: &MonSet, v: &Violation, budget: usize) -> (
                     calls.remove(ci);
                 }
                 runs += 1;
-                if same(&run_program(&cand, mon).violation, v.prop, &v.kind) {
+                if same(&run_program(&cand, mon), v.prop, &v.kind) {
                     best = cand;
                     ncalls -= 1;
                 } else {
@@ -243,7 +251,6 @@ pub fn cmd_sim(args: &Args) -> i32 {
     let out = args.str("out", "");
     let replay_dir = args.str("replay-dir", "/verif/replays");
     let progress = args.str("progress", "");
-    let max_viol = args.u64("max-violations", 4) as usize;
     let mut total = Counters::default();
     let mut hashes: Vec<u64> = vec![];
     let mut violations = vec![];
@@ -270,10 +277,14 @@ pub fn cmd_sim(args: &Args) -> i32 {
         if res.nontrivial {
             hashes.push(res.hash);
         }
-        if samples.len() < 2 && res.nontrivial && res.violation.is_none() {
+        if samples.len() < 2 && res.nontrivial && res.violation.is_none() && res.soft.is_empty() {
             samples.push(json!({"idx": idx, "replicas": program.cfg, "log": res.log.iter().take(40).collect::<Vec<_>>()}));
         }
-        if let Some(v) = res.violation {
+        let mut found: Vec<Violation> = res.soft.clone();
+        if let Some(v) = res.violation.clone() {
+            found.push(v);
+        }
+        for v in found {
             let sig = format!("{}/{}", v.prop, v.kind);
             let first_of_kind = !seen_kinds.contains(&sig);
             if first_of_kind {
@@ -290,17 +301,16 @@ pub fn cmd_sim(args: &Args) -> i32 {
                     "violation": {"prop": v.prop, "kind": v.kind, "detail": v.detail},
                     "program": program, "log": res.log,
                     "minimised": {"program": min, "ddmin_runs": runs, "log": minres.log,
-                                  "detail": minres.violation.as_ref().map(|x| x.detail.clone())},
+                                  "detail": minres.violation.iter().chain(minres.soft.iter()).find(|x| x.kind == v.kind).map(|x| x.detail.clone())},
                 });
                 if std::fs::write(&path, serde_json::to_string_pretty(&doc).unwrap()).is_ok() {
                     entry["replay"] = json!(path);
                 }
                 entry["min_steps"] = json!(min.steps.len());
-                entry["min_detail"] = json!(minres.violation.map(|x| x.detail));
+                entry["min_detail"] = json!(minres.violation.iter().chain(minres.soft.iter()).find(|x| x.kind == v.kind).map(|x| x.detail.clone()));
             }
-            violations.push(entry);
-            if seen_kinds.len() >= max_viol && violations.len() >= 200 {
-                break;
+            if violations.len() < 400 {
+                violations.push(entry);
             }
         }
     }
@@ -338,14 +348,13 @@ pub fn cmd_replay(args: &Args) -> i32 {
     for l in &res.log {
         println!("  {}", l);
     }
-    match res.violation {
-        Some(v) => {
-            println!("REPLAY violation property={} kind={}\n{}", v.prop, v.kind, v.detail);
-            1
-        }
-        None => {
-            println!("REPLAY no violation");
-            0
-        }
+    let mut code = 0;
+    for v in res.soft.iter().chain(res.violation.iter()) {
+        println!("REPLAY violation property={} kind={}\n{}", v.prop, v.kind, v.detail);
+        code = 1;
     }
+    if code == 0 {
+        println!("REPLAY no violation");
+    }
+    code
 }
